@@ -13,7 +13,7 @@ class C14(core.Prop):
     pid = 'C14'
     lean_modules = ['TddaVerif.Props.C14']
     theorems = ['TddaVerif.Props.C14.' + t for t in [
-        'order_independent', 'clean_dict_eq_list', 'dict_eq_list', 'freq_irrelevant', 'repeat_is_noop']]
+        'order_independent', 'clean_dict_eq_list', 'dict_eq_list', 'freq_irrelevant', 'repeat_is_noop', 'series_eq_list']]
     quick_n = 300
     thorough_n = 15000
     rule = ('cases: example multisets (as C03) x option subsets x Size settings that force sampling x seeds; each is '
@@ -25,7 +25,7 @@ class C14(core.Prop):
         'as C03: hand-written Lean model of the batch path, tied by correspondence on the given order, one permutation and '
         'the dictionary form of every non-sampling case',
         'proved (batch path): invariance under reordering (whole result, with or without pruning), dictionary = list form, '
-        'irrelevance of frequencies and of repeats (no pruning); the model is a pure function so a call cannot depend on '
+        'irrelevance of frequencies and of repeats (no pruning), pandas-column form (pdextract) = list form; the model is a pure function so a call cannot depend on '
         'history. NOT proved: everything about sampling, seeds, the global PRNG, hash order and the regex memo (oracle only: '
         '5 permutations per case, fresh-process re-evaluation under another hash seed)',
         'set / dict iteration order of CPython for the run\'s PYTHONHASHSEED (the thorough tier repeats under a second hash seed)',
@@ -64,7 +64,10 @@ class C14(core.Prop):
         if not rx.modelled(case['examples'], case['opts']):
             return []
         if rx.nosampling(case['examples'], case['opts'], case['size']):
-            return [rx.model_extract_op(ex, case['opts'], form) for ex, form in self._variants(case)]
+            ops = [rx.model_extract_op(ex, case['opts'], form) for ex, form in self._variants(case)]
+            if self._series_ok(case):
+                ops.append({'op': 'rx.pdextract', 'table': rx.char_table(case['examples'], ascii_digits=True), 'cols': self._cols(case)})
+            return ops
         ops = []
         for (ex, form), (res, exc, picks) in zip(self._variants(case), self._recorded(case)):
             if exc is not None or any(not isinstance(x, list) for p in picks for x in p):
@@ -73,13 +76,50 @@ class C14(core.Prop):
         self.count('sampled_traces')
         return ops
 
+    def _series_ok(self, case):
+        """pdextract takes no options: cases without options and Size, small enough not to be sampled"""
+        return not case['opts'] and not case['size'] and len(case['examples']) < 90
+
+    def _cols(self, case):
+        ex = case['examples']
+        k = (case.get('perm_seed', 0) % (len(ex) + 1)) if ex else 0
+        return [list(ex[:k]), list(ex[k:])]
+
+    def _pdextract(self, case):
+        """the real pdextract on two object columns; the strings it hands to extract are spied on"""
+        import pandas as pd
+        seen = {}
+        real = rx.rexpy.extract
+
+        def spy(strings, *a, **kw):
+            seen['strings'] = list(strings)
+            return real(strings, *a, **kw)
+        st = random.getstate()
+        rx.rexpy.extract = spy
+        try:
+            res = rx.rexpy.pdextract([pd.Series(c, dtype=object) for c in self._cols(case)], seed=case['seed'])
+            out = {'rex': list(res), 'strings': seen.get('strings')}
+        except Exception as e:   # noqa
+            out = {'exc': type(e).__name__}
+        finally:
+            rx.rexpy.extract = real
+            random.setstate(st)
+        return out
+
     def impl_outputs(self, case):
         if rx.nosampling(case['examples'], case['opts'], case['size']):
-            return [rx.impl_rex(ex, case['opts'], case['size'], case['seed'], form) for ex, form in self._variants(case)]
+            outs = [rx.impl_rex(ex, case['opts'], case['size'], case['seed'], form) for ex, form in self._variants(case)]
+            if self._series_ok(case):
+                outs.append(self._pdextract(case))
+            return outs
         return [{'exc': type(exc).__name__} if exc is not None else {'rex': list(res)} for res, exc, _ in self._recorded(case)]
 
     def canon_model(self, case, outs):
-        return rx.canon_rex(outs)
+        res = rx.canon_rex(outs)
+        for i, o in enumerate(outs):
+            if 'ok' in o and 'strings' in o['ok']:
+                res[i] = {'rex': o['ok']['rex'], 'strings': o['ok']['strings']}
+        return res
 
     def nontrivial_key(self, case):
         if case.get('kind') == 'history':
@@ -187,6 +227,33 @@ class C14(core.Prop):
         r, e, _, _ = rx.run_extract(ex, opts, size, seed, 'dict')
         if e is None and r != base:
             fail('dict-differs', 'list %r dict %r' % (base, r), 'dict-differs' + sk)
+        # pandas column forms (pdextract takes no options): object / str / categorical columns, categoricals with
+        # categories no row uses, several columns - the result depends only on the strings that occur
+        if not opts and not size:
+            import pandas as pd
+            unused = [u for u in ('Q-77', 'zz', 'UNUSED_9') if u not in ex]
+            k = len(ex) // 2
+            forms = {}
+            try:
+                forms['object'] = pd.Series(list(ex), dtype=object)
+                forms['str'] = pd.Series(list(ex), dtype='str')
+                forms['category'] = pd.Series(list(ex), dtype=object).astype('category')
+                cats = sorted({s_ for s_ in ex if s_ is not None})
+                forms['category-unused'] = pd.Series(list(ex), dtype=object).astype(pd.CategoricalDtype(cats + unused))
+                forms['category-filtered'] = pd.Series(list(ex) + unused, dtype=object).astype('category').iloc[:len(ex)]
+                forms['two-columns'] = [pd.Series(list(ex[:k]), dtype=object), pd.Series(list(ex[k:]), dtype=object)]
+            except Exception:   # noqa  (a value pandas cannot hold in that dtype)
+                pass
+            for fname, col in forms.items():
+                st_a = random.getstate()
+                try:
+                    r = rx.rexpy.pdextract(col, seed=seed)
+                except Exception as e_:   # noqa
+                    r = 'exc:' + type(e_).__name__
+                random.setstate(st_a)
+                self.count('series_forms')
+                if r != base:
+                    fail('series-differs', 'list %r, %s column %r' % (base, fname, r), 'series-differs:' + fname + sk)
         # repeating an example changes nothing
         if ex:
             e2 = list(ex) + [rng.choice([s for s in ex])]
